@@ -33,6 +33,8 @@ where
     fn canon_b(b: &Value) -> Value;
     fn op_proj(o: &<Self as CmRDT>::Op, d: &Dims) -> Value;
     fn canon_op(o: &Value) -> Value;
+    /// the layer-A view of a NESTED op of this type (see Engine::op_a_view)
+    fn nested_a_view(o: &Value) -> Value;
     /// contents through the public read API, canonical ("shown" schema)
     fn shown(v: &Self, d: &Dims) -> Value;
     /// the same, computed from a B-projection
@@ -67,6 +69,10 @@ impl MVal for MVReg<u8, u8> {
     }
     fn canon_op(o: &Value) -> Value {
         json!({"clock": o["clock"], "val": o["val"]})
+    }
+    fn nested_a_view(o: &Value) -> Value {
+        // the clock of a nested put is whatever the enclosing map hands to write(): layer-B detail
+        json!({"val": o["val"]})
     }
     fn shown(v: &Self, _d: &Dims) -> Value {
         let mut val: Vec<u64> = v.read().val.iter().map(|x| *x as u64).collect();
@@ -125,6 +131,14 @@ impl MVal for Orswot<u8, u8> {
             sort_array(ms);
         }
         v
+    }
+    fn nested_a_view(o: &Value) -> Value {
+        // a nested member-remove carries the nested set's witness clock: layer-B detail
+        if o["kind"] == "rm" {
+            json!({"kind": "rm", "members": o["members"]})
+        } else {
+            o.clone()
+        }
     }
     fn shown(v: &Self, _d: &Dims) -> Value {
         let mut val: Vec<u64> = v.read().val.iter().map(|x| *x as u64).collect();
@@ -274,6 +288,14 @@ where
             sort_array(ks);
         }
         v
+    }
+    fn nested_a_view(o: &Value) -> Value {
+        if o["kind"] == "up" {
+            json!({"kind": "up", "actor": o["actor"], "counter": o["counter"], "key": o["key"], "op": V::nested_a_view(&o["op"])})
+        } else {
+            // a nested key-remove carries the nested map's entry clock: layer-B detail
+            json!({"kind": "rm", "keys": o["keys"]})
+        }
     }
     fn shown(v: &Self, d: &Dims) -> Value {
         let mut entries = vec![Value::Null; d.k];
@@ -425,6 +447,14 @@ where
     }
     fn canon_op(o: &Value) -> Value {
         <Map<u8, V, u8> as MVal>::canon_op(o)
+    }
+    fn op_a_view(o: &Value) -> Value {
+        if o["kind"] == "up" {
+            json!({"kind": "up", "actor": o["actor"], "counter": o["counter"], "key": o["key"], "op": V::nested_a_view(&o["op"])})
+        } else {
+            // a top-level key-remove carries the key's witnesses (layer A: ExpWit), or the map clock for a whole-map read
+            o.clone()
+        }
     }
     fn validate_op(s: &Self::S, o: &Self::O) -> String {
         verdict_kind(s.validate_op(o))
